@@ -132,6 +132,9 @@ class History:
         elif kind == 'inject':
             ep = w.A if args[0] == 'A' else w.B
             w.inject(ep, args[1], src=args[2] if len(args) > 2 else None)
+        elif kind == 'force4':
+            # the values of the next 4-byte draws (CHILD_SA SPIs): 'f:-,aabbccdd' = the first as usual, the second forced
+            w.forced4 = [None if x in ('-', '') else bytes.fromhex(x) for x in str(args[0])[2:].split(',')] if len(str(args[0])) > 2 else []
         else:
             raise ValueError(kind)
         for ep in (w.A, w.B):
